@@ -775,7 +775,9 @@ class Interp:
             if fi.qn in self.model.prims:
                 fn = self.model.prims[fi.qn]
                 self.model.summaries_used.add(fi.qn)
-                return lambda *a, **k: fn(self, *a, **k)
+                w = lambda *a, **k: fn(self, *a, **k)
+                w.qn = fi.qn                  # (a summarised function passed on as a value is still that function)
+                return w
             return Closure(fi.node, {}, fi.mod, fi.qn)
         if kind == "class":
             return ClassRef(r[1].name)
@@ -851,9 +853,9 @@ class Interp:
                 cur.extend(v)                              # list += mutates in place
                 return
             res = self.aug(s.op, cur, v)
-            if isinstance(s.target, ast.Name) and isinstance(cur, Vec) and isinstance(res, Vec) and len(res.v) == len(cur.v) \
-                    and (getattr(cur, "base", None) is not None or getattr(cur, "views", None)):
-                cur.v = list(res.v)                        # ndarray op= works in place: the array it is a view of (and its views) change with it
+            if isinstance(s.target, ast.Name) and isinstance(cur, Vec) and isinstance(res, Vec) and len(res.v) == len(cur.v):
+                # ndarray / Series `op=` works in place: every other reference to the object (a caller's argument, the array it is a view of, its views) changes with it
+                cur.v = list(res.v)
                 self.lib.sync_views(cur)
                 return
             self.assign(s.target, res, env, aug=True)
